@@ -393,4 +393,82 @@ theorem cleanLabels_needed :
 
 end Examples
 
+/-! ## Pins: the names and constants of the anchored functions that the hand-written model mirrors
+
+`Generated/TablesC06.lean` is rewritten on every run from the live code objects of /repo
+(`co_names`, `co_consts` incl. the nested generator expressions, `__defaults__`; docstrings dropped;
+non-string constants by their `repr`).  Which model definition hand-codes which of them:
+
+* `c06IsIsomorphic…` — `Model.sizesDiffer` / `isIsomorphic`: the four size pre-checks are exactly
+  `len` of `rels`, `hcons`, `icons`, `variables`; then `_make_mrs_isograph` twice, `util._vf2`,
+  `set(iso) == set(g1)` (`accept`); the early `return False`; default `properties=True` (the harness
+  always passes `properties` explicitly, so only this pin sees a changed default).
+* `c06MakeIsograph…` — `Model.mkIsoGraph` / `addEP` / `epNodeLabel` / `propString` / `eqScope`:
+  `'eq-scope'`, the `(`carg`)` and `{`P`=`v`|`…`}` label formats, `sorted(props, key=property_priority)`,
+  `prop.upper()` / `val.lower()` (`upperC` / `lowerC`), `predicate.normalize`, `mrs.CONSTANT_ROLE`,
+  `g[id].get(tgt, '').split()` and `' '.join(sorted(roles))` (`splitSp`, `sortLabels`, `joinWith [' ']`),
+  `hc.hi/lo/relation`, `ic.left/right/relation`.
+* `c06CompareBags…` — `Model.bagStep` / `compareBags`: `list(goldbag)`, first match by `is_isomorphic`
+  with `properties=` passed on, `remove`, `append`, `len`; defaults `properties=True, count_only=True`.
+* `c06Vf2…` — `Model.search` / `vf2`; `c06InvMap…` — `Model.invPrefix` (`'--'`), the `' '` merge separator
+  of `augLabel`, `incoming`; `c06Feasible…` — `Model.feasible` (`.get(None, '')`, `len`, `_vf2_new`,
+  `_vf2_consistent`); `c06New…` — the vacuous look-ahead (`feasible`'s doc comment); `c06Consistent…`
+  — `Model.consistent`; `c06Candidates…` — `Model.candidates` (`min`, `sorted(…, reverse=True)` popped
+  from the end = ascending `sortDedup`).
+* `c06Normalize…`, `c06StripPredicate…` — `Model.normalizePred` / `stripPredicate`: `lower` (not
+  `casefold`), the quote characters, `s[1:-1]`, `s[1:]`, `s[-4:]`, `'_rel'`.
+* `c06PropertyPriority…`, `commonProperties`, `c06CommonPropertyIndex` — `Model.propIndex` / `propKeyLt`.
+* `c06FillVariables…` — `Model.filledVars`; `c06UniquifyIds…` — `Verif.Sem.uniquify` / `maxVid`
+  (`'_{}'`, `default=0`); `c06Roles` — `Verif.Sem.CONSTANT_ROLE/INTRINSIC_ROLE/RESTRICTION_ROLE` and the
+  quantifier id prefix `q` of `Verif.Sem.EP.baseId`.
+
+A change to any of them must be followed in the model: this theorem stops checking, which the check
+reports as a broken proof obligation and then searches for a failing input. -/
+section Pins
+open Verif.Tables
+
+theorem c06_pins :
+    c06IsIsomorphicNames = ["len", "rels", "hcons", "icons", "variables", "_make_mrs_isograph", "util", "_vf2", "set"]
+    ∧ c06IsIsomorphicConsts = ["False"]
+    ∧ c06IsIsomorphicDefaults = ["True"]
+    ∧ c06MakeIsographNames = ["update", "variables", "rels", "label", "id", "get", "iv", "args", "carg", "predicate",
+        "normalize", "sorted", "property_priority", "append", "upper", "lower", "join", "mrs", "CONSTANT_ROLE",
+        "split", "hcons", "relation", "hi", "lo", "icons", "left", "right", "<genexpr>", "<genexpr>", "id"]
+    ∧ c06MakeIsographConsts = ["eq-scope", "(", ")", "('key',)", "=", "{", "|", "}", "", " ", "<genexpr>", "<genexpr>"]
+    ∧ c06CompareBagsNames = ["list", "is_isomorphic", "remove", "append", "len"]
+    ∧ c06CompareBagsConsts = ["None", "('properties',)"]
+    ∧ c06CompareBagsDefaults = ["True", "True"]
+    ∧ c06Vf2Names = ["_vf2_inv_map", "_vf2_candidates", "len", "pop", "_vf2_feasible", "append"]
+    ∧ c06Vf2Consts = ["None", "False", "True"]
+    ∧ c06InvMapNames = ["items"]
+    ∧ c06InvMapConsts = ["None", String.ofList invPrefix, " "]
+    ∧ c06FeasibleNames = ["items", "get", "len", "_vf2_new", "_vf2_consistent"]
+    ∧ c06FeasibleConsts = ["", "False", "True"]
+    ∧ c06NewNames = ["set", "pop", "append", "add"]
+    ∧ c06NewConsts = []
+    ∧ c06ConsistentNames = ["items"]
+    ∧ c06ConsistentConsts = ["False", "True"]
+    ∧ c06CandidatesNames = ["set", "values", "items", "update", "min", "sorted", "<genexpr>", "<genexpr>"]
+    ∧ c06CandidatesConsts = ["True", "('reverse',)", "<genexpr>", "<genexpr>"]
+    ∧ c06NormalizeNames = ["_strip_predicate", "lower"]
+    ∧ c06NormalizeConsts = []
+    ∧ c06StripPredicateNames = ["startswith", "endswith", "lower"]
+    ∧ c06StripPredicateConsts = ["\"", "1", "-1", "'", "None", "-4", "_rel"]
+    ∧ c06PropertyPriorityNames = ["_COMMON_PROPERTY_INDEX", "get", "upper", "len", "_COMMON_PROPERTIES"]
+    ∧ c06PropertyPriorityConsts = []
+    ∧ commonProperties = ["PERS", "NUM", "GEND", "IND", "PT", "PRONTYPE", "SF", "TENSE", "MOOD", "PROG", "PERF",
+        "ASPECT", "PASS"]
+    ∧ c06CommonPropertyIndex = ["PERS=0", "NUM=1", "GEND=2", "IND=3", "PT=4", "PRONTYPE=5", "SF=6", "TENSE=7",
+        "MOOD=8", "PROG=9", "PERF=10", "ASPECT=11", "PASS=12"]
+    ∧ c06FillVariablesNames = ["label", "args", "items", "CONSTANT_ROLE", "lo", "hi", "left", "right"]
+    ∧ c06FillVariablesConsts = []
+    ∧ c06UniquifyIdsNames = ["max", "set", "id", "format", "add", "<genexpr>", "iv", "variable", "id"]
+    ∧ c06UniquifyIdsConsts = ["0", "('default',)", "_{}", "1", "<genexpr>"]
+    ∧ c06Roles = [CONSTANT_ROLE, INTRINSIC_ROLE, RESTRICTION_ROLE, "q"]
+    ∧ c06MakeIsographConsts.head? = some (String.ofList eqScope) := by
+  refine ⟨?_, ?_, ?_, ?_, ?_, ?_, ?_, ?_, ?_, ?_, ?_, ?_, ?_, ?_, ?_, ?_, ?_, ?_, ?_, ?_, ?_, ?_, ?_, ?_, ?_,
+    ?_, ?_, ?_, ?_, ?_, ?_, ?_, ?_, ?_⟩ <;> decide
+
+end Pins
+
 end Verif.C06
